@@ -1,6 +1,6 @@
 // @static_init Utils.cxx SelectedOutput.cpp UserPunch.cpp
 // @id C09.selected_output_heading_once_per_call
-// @also C05
+// @also C05 C13
 // @engine B
 // @entry vfh_C09_sel_headings
 // @shared_state_watch
@@ -9,7 +9,7 @@
 // @reach headings.done
 // @funcs IPhreeqc::do_run; Phreeqc::tidy_punch; IPhreeqc::punch_open; IPhreeqc::punch_msg
 // @bounds a Run* call on an instance that already has 1..3 SELECTED_OUTPUT blocks (user numbers 1, 5, 22; one built-in column each) from an earlier call and does not redefine them; for every block the file switch and the string switch are on or off (case split, all blocks alike or only the first with a file); the real run driver, the real heading writer (tidy_punch) and the wrapper's file opening on the file model; the chemistry of the simulation is replaced by events
-// @oracle every call starts each selected-output stream with exactly one heading line: after the call the string of every block whose string switch is on consists of one heading line, and where the file switch is on too the file holds the same text as the string
+// @oracle every call starts each selected-output stream with exactly one heading line: after the call the string of every block whose string switch is on consists of one heading line, and where the file switch is on too the file holds the same text as the string; a block without a file name from the caller or from -file writes to its own default file selected_n.<id>.out
 // @stubs sformatf (every heading cell reads "head"); engine entry points of do_run except tidy_punch (events); tidy_model runs tidy_punch as the real one does when a SELECTED_OUTPUT keyword was counted
 // @outside data rows (C05 obligations), redefinition during the run (known finding C09-selected-output-redefinition)
 #define VF_REAL_TIDY_PUNCH
@@ -45,6 +45,7 @@ extern "C" void vfh_C09_sel_headings(void)
 	new (&p->title_x) std::string();
 	static const int N[3] = {1, 5, 22};
 	static const char *FN[3] = {"sel_1.out", "sel_5.out", "sel_22.out"};
+	int default_names = (int) vf_int("default_file_names", 0, 1);
 	int blocks = (int) vf_int("blocks", 1, 3), files = (int) vf_int("file_switches", 0, 2), strings = (int) vf_int("string_switches_on", 0, 1);
 	for (int i = 0; i < blocks; i++)
 	{
@@ -55,7 +56,7 @@ extern "C" void vfh_C09_sel_headings(void)
 		ip->SelectedOutputStringMap[N[i]] = std::string();
 		ip->SelectedOutputFileOnMap[N[i]] = files == 2 || (files == 1 && i == 0);
 		ip->SelectedOutputStringOn[N[i]] = strings != 0;
-		ip->SelectedOutputFileNameMap[N[i]] = FN[i];
+		if (!default_names) ip->SelectedOutputFileNameMap[N[i]] = FN[i];          /* else: no name set, none given with -file */
 	}
 	ip->CurrentSelectedOutputUserNumber = 1;
 	ip->punch_on = true; p->pr.punch = TRUE;
@@ -75,7 +76,10 @@ extern "C" void vfh_C09_sel_headings(void)
 		else vf_check("headings.string_off_stays_empty", str.empty());
 		if (f_on)
 		{
-			std::string file; std::ifstream f(FN[i]); std::string line;
+			std::string fname = default_names ? ip->sel_file_name(N[i]) : std::string(FN[i]);
+			/* C13: without a name from the caller or the input, block n writes to the documented default selected_n.<id>.out */
+			vf_check("headings.file_name_belongs_to_the_block", ip->SelectedOutputFileNameMap[N[i]] == fname);
+			std::string file; std::ifstream f(fname.c_str()); std::string line;
 			while (f.is_open() && std::getline(f, line)) { file += line; file += "\n"; }
 			vf_check("headings.one_heading_line_in_the_file", count_lines(file) == 1);
 			if (strings) vf_check("headings.file_and_string_hold_the_same_text", file == str);
